@@ -69,7 +69,79 @@ def candidates(lines):
     return out
 
 
+def retest():
+    """tools/mutate.py --retest : applies every mutant recorded as missed in .work/mutants.jsonl again (located by
+    the text of the original line) and runs the mapped checks of the current harness; appends the new records."""
+    rows = [json.loads(l) for l in open(os.path.join(V, ".work", "mutants.jsonl"))]
+    last = {}
+    for r in rows:
+        last[(r["file"], r["orig"], r["mutation"])] = r
+    todo = [r for r in last.values() if not r["caught_by"]]
+    wt = "/tmp/mut-%d" % os.getpid()
+    subprocess.run(["git", "-C", "/repo", "worktree", "prune"])
+    subprocess.run(["git", "-C", "/repo", "worktree", "add", "-q", "--detach", wt, "HEAD"], check=True)
+    outf = open(os.path.join(V, ".work", "mutants.jsonl"), "a")
+    try:
+        for r in todo:
+            path = os.path.join(wt, r["file"])
+            orig = open(path).read()
+            lines = orig.split("\n")
+            idx = [i for i, ln in enumerate(lines) if ln.strip()[:160] == r["orig"]]
+            if not idx:
+                print("GONE   %s:%d %s" % (r["file"], r["line"], r["mutation"]), flush=True)
+                continue
+            i = min(idx, key=lambda k: abs(k - (r["line"] - 1)))
+            ln = lines[i]
+            mut = r["mutation"]
+            if mut == "delete statement":
+                new = ""
+            else:
+                mm = re.match(r"(.*) -> (.*?)(?: @(\d+))?$", mut)
+                a, b, col = mm.group(1), mm.group(2), mm.group(3)
+                if col is not None and ln[int(col):int(col) + len(a)] == a:
+                    new = ln[:int(col)] + b + ln[int(col) + len(a):]
+                elif col is None and ln.count(a) == 1:
+                    new = ln.replace(a, b)
+                else:
+                    print("AMBIG  %s:%d %s" % (r["file"], r["line"], r["mutation"]), flush=True)
+                    continue
+            ml = list(lines)
+            ml[i] = new
+            open(path, "w").write("\n".join(ml))
+            rc, out = sh(["go", "build", "./..."], wt, 300)
+            caught_by, detail = [], {}
+            if rc == 0:
+                props = PROPS[r["file"]]
+                for p in props:
+                    t0 = time.time()
+                    try:
+                        rc, out = sh([os.path.join(V, "check"), p, "quick"], V, 1500, dict(ENV, VERIF_REPO=wt))
+                    except subprocess.TimeoutExpired:
+                        rc, out = 3, "timeout"
+                    first = ""
+                    m2 = re.search(r"^VIOLATION.*\n(.*)", out, re.M)
+                    if m2:
+                        first = m2.group(1).strip()[:200]
+                    detail[p] = {"rc": rc, "first": first, "s": round(time.time() - t0, 1)}
+                    if rc == 1:
+                        caught_by.append(p)
+                        break
+                    if rc == 2 and ("does not return within" in out or "HANG" in out):
+                        caught_by.append(p + "(hang: inconclusive)")
+                        break
+            open(path, "w").write(orig)
+            rec = dict(r, line=i + 1, caught_by=caught_by, detail=detail, retest=True)
+            outf.write(json.dumps(rec) + "\n")
+            outf.flush()
+            print("%s %s:%d %s [%s]" % ("CAUGHT " + ",".join(caught_by) if caught_by else "MISSED", r["file"], i + 1, mut, r["orig"][:90]), flush=True)
+    finally:
+        subprocess.run(["git", "-C", "/repo", "worktree", "remove", "--force", wt])
+
+
 def main():
+    if sys.argv[1] == "--retest":
+        retest()
+        return
     rel, n = sys.argv[1], int(sys.argv[2])
     seed = int(sys.argv[3]) if len(sys.argv) > 3 else 1
     props = PROPS[rel]
